@@ -101,7 +101,8 @@ def check_writers(s, out):
         d = json.load(open(pj))["baseInteractions"]
         got = [len(d["basePairs"]), len(d["stackings"]), len(d["baseRiboseInteractions"]), len(d["basePhosphateInteractions"])]
         want = [len(bi.basePairs), len(bi.stackings), len(bi.baseRiboseInteractions), len(bi.basePhosphateInteractions)]
-        ok = got == want and all(j["lw"] == x.lw.value and j["nt1"]["auth"]["number"] == x.nt1.number and j["nt2"]["auth"]["number"] == x.nt2.number for j, x in zip(d["basePairs"], bi.basePairs))
+        num = lambda nt: (nt.get("auth") or nt.get("label") or {}).get("number")  # a residue read without a complete author identity carries its label only
+        ok = got == want and all(j["lw"] == x.lw.value and num(j["nt1"]) == x.nt1.number and num(j["nt2"]) == x.nt2.number for j, x in zip(d["basePairs"], bi.basePairs))
         if not ok:
             out.append(viol("writers:json-differs", "JSON lists differ from the interaction lists", got, want))
 
